@@ -684,6 +684,42 @@ Ltac dirichlet_id_tac :=
     | unfold Rdiv; rewrite ?Rmult_1_l; rewrite exp_ln by exact H; apply Rinv_inv
     | unfold Rdiv; rewrite ?Rmult_1_l; rewrite exp_Ropp; rewrite exp_ln by exact H; apply Rinv_inv ].
 
+(* HMC step-size adaptors (hmc/adaptation.py), over the regenerated update expressions *)
+Lemma tuning_direction_adaptive_l (cfg : opcfg R) (os : opstate R) ap tgt :
+  k_tuner cfg = TAdaptive tgt -> 0 < o_field os -> tgt <= ap ->
+  0 < o_field (tune NumR cfg os ap) /\ o_field os <= o_field (tune NumR cfg os ap).
+Proof.
+  intros Ht Hs Hap. unfold tune. rewrite Ht. cbn [o_field].
+  unfold AdaptiveStepSize_new; cbn [nexp nln add div sub ofQ NumR]. rewrite Q2R_2, ofNat_R.
+  split; [apply exp_pos|].
+  rewrite <- (exp_ln (o_field os) Hs) at 1. apply exp_le.
+  pose proof (pos_INR (S (o_count os))).
+  assert (0 <= (ap - tgt) / (2 + INR (S (o_count os)))).
+  { apply Rmult_le_pos; [lra|]. left. apply Rinv_0_lt_compat. lra. }
+  lra.
+Qed.
+
+Lemma tuning_dual_monotone_l (cfg : opcfg R) (os : opstate R) ap1 ap2 delta t0 mu gamma :
+  k_tuner cfg = TDual delta t0 mu gamma -> 0 < gamma -> 0 <= t0 -> ap1 <= ap2 ->
+  o_field (tune NumR cfg os ap1) <= o_field (tune NumR cfg os ap2).
+Proof.
+  intros Ht Hg H0 Hap. unfold tune. rewrite Ht. cbn [o_field].
+  unfold DualAveragingStepSize_step, DualAveraging_x, DualAveragingStepSize_statistic;
+    cbn [nexp nsqrt add sub mul div ofQ NumR]. rewrite Q2R_1, ofNat_R.
+  apply exp_le.
+  set (c := INR (S (o_count os))).
+  assert (Hc : 0 < c) by (unfold c; apply lt_0_INR; lia).
+  set (eta := 1 / (c + t0)).
+  assert (He : 0 < eta) by (unfold eta; apply Rdiv_lt_0_compat; lra).
+  pose proof (sqrt_pos c) as Hsq.
+  assert (Hgi : 0 < / gamma) by (apply Rinv_0_lt_compat; exact Hg).
+  set (A1 := (1 - eta) * o_aux os + eta * (delta - ap1)).
+  set (A2 := (1 - eta) * o_aux os + eta * (delta - ap2)).
+  assert (A2 <= A1) by (unfold A1, A2; nra).
+  assert (A2 * sqrt c <= A1 * sqrt c) by nra.
+  unfold Rdiv. assert (A2 * sqrt c * / gamma <= A1 * sqrt c * / gamma) by nra. lra.
+Qed.
+
 (* ======================================================================================== *)
 (* non-vacuity example (restated in prop/C15.v)                                              *)
 (* ======================================================================================== *)
